@@ -6,6 +6,8 @@ import KikiVerif.Model.Table
 import KikiVerif.Proofs.Table
 import KikiVerif.Proofs.NoPanic
 import KikiVerif.Proofs.Encode
+import KikiVerif.Proofs.FirstSound
+import KikiVerif.Proofs.LalrConflict
 
 namespace KikiVerif.C04
 open KikiVerif.Table KikiVerif.Machine KikiVerif.LR
@@ -46,8 +48,8 @@ theorem C04_conflict_genuine (c : Ctx) (m : Machine) (s : Nat) (e n : Item)
 machine `m`, `machine_to_table` does exactly one of two things — it returns a table and `m` has no pair of items
 demanding different actions on one lookahead column, or it reports a conflict and that conflict is such a pair.
 There is no third outcome (no panic: `Proofs/NoPanic`), so *a parser is emitted iff the generated automaton is
-conflict-free*.  (That the generated automaton is *the* LALR(1) automaton of the grammar — exact lookahead
-sets — is the part compared with an independent construction, not proved.) -/
+conflict-free*.  (That the generated automaton is *the* LALR(1) automaton of the grammar is `C04_emitted_iff_lalr1`
+below.) -/
 theorem C04_emitted_iff_conflict_free (vf : VFile.File) (enc : Encode.Enc) (m : Machine) (fuel : Nat)
     (he : Encode.encode vf = some enc) (hm : machineOf enc.ctx fuel = some (some m)) :
     ((∃ t, machineToTable enc.ctx m = .ok t) ∧ ¬ ∃ s e n, Genuine enc.ctx m s e n) ∨
@@ -59,6 +61,49 @@ theorem C04_emitted_iff_conflict_free (vf : VFile.File) (enc : Encode.Enc) (m : 
   | conflict s e n => exact Or.inr ⟨s, e, n, rfl, conflict_genuine _ _ s e n h⟩
   | panic site => exact absurd h (NoPanic.machineToTable_no_panic ok mok site)
 
+/-- **C04 in the textbook's terms, every validated file**: a table (hence a parser) is produced iff the grammar has
+no LALR(1) conflict, and a conflict is reported iff it has one — where an *LALR(1) conflict of the grammar*
+(`Machine.LalrConflict`, stated without reference to the generated automaton) is: two states of the canonical
+LR(1) collection with the same set of cores hold two items that want different parser actions (shift on the
+terminal right of the dot / reduce by the item's rule on the item's lookahead / accept on end of input) on one
+lookahead column.  This covers shift/reduce, reduce/reduce and accept/reduce conflicts, conflicts that exist only
+after merging (LR(1)-but-not-LALR(1) grammars: `I1 ≠ I2`), and never rejects a grammar whose merged canonical
+collection is conflict-free (LALR(1)-but-not-SLR(1) included).  The FIRST map `fm` used by the canonical
+collection is the generator's, proved closed and sound (`firstSets_closed`, `firstSets_sound`), i.e. exact. -/
+theorem C04_emitted_iff_lalr1 (vf : VFile.File) (enc : Encode.Enc) (m : Machine) (fuel : Nat)
+    (he : Encode.encode vf = some enc) (hm : machineOf enc.ctx fuel = some (some m)) :
+    ∃ fm, firstSets enc.ctx fuel = some (some fm) ∧ Valid.firstClosedB enc.ctx.g (toTbl fm) = true ∧
+      FmSound enc.ctx.g fm ∧
+      ((∃ t, machineToTable enc.ctx m = .ok t) ↔ ¬ LalrConflict enc.ctx fm) ∧
+      ((∃ s e n, machineToTable enc.ctx m = .conflict s e n) ↔ LalrConflict enc.ctx fm) := by
+  have ok := Encode.encode_ok he
+  obtain ⟨fm, hfm, mok⟩ := machineOf_ok ok.terms hm
+  have hiff := genuine_iff_lalrConflict ok (firstSets_closed hfm).2.1 mok
+  refine ⟨fm, hfm, (firstSets_closed hfm).1, firstSets_sound hfm, ?_, ?_⟩
+  · constructor
+    · rintro ⟨t, ht⟩ hc
+      exact ok_conflict_free _ _ t ht (hiff.mpr hc)
+    · intro hnc
+      cases h : machineToTable enc.ctx m with
+      | ok t => exact ⟨t, rfl⟩
+      | conflict s e n => exact absurd (hiff.mp ⟨s, e, n, conflict_genuine _ _ s e n h⟩) hnc
+      | panic site => exact absurd h (NoPanic.machineToTable_no_panic ok mok site)
+  · constructor
+    · rintro ⟨s, e, n, h⟩
+      exact hiff.mp ⟨s, e, n, conflict_genuine _ _ s e n h⟩
+    · intro hc
+      cases h : machineToTable enc.ctx m with
+      | ok t => exact absurd (hiff.mpr hc) (ok_conflict_free _ _ t h)
+      | conflict s e n => exact ⟨s, e, n, rfl⟩
+      | panic site => exact absurd h (NoPanic.machineToTable_no_panic ok mok site)
+
+/-- non-vacuity of `want`: a completed item wants a reduction on its lookahead, an item with a terminal right
+of the dot wants a shift on it (a two-rule grammar `0 → t0`, `0 → t0 t1`: shift/reduce on different columns) -/
+example :
+    let c : Ctx := { g := { rules := [⟨0, [.t 0]⟩, ⟨0, [.t 0, .t 1]⟩], start := 0 }, nT := 2, nN := 1 }
+    want c ⟨0, 2, 1⟩ = some (2, .reduce 0) ∧ want c ⟨1, 2, 1⟩ = some (1, .shift) ∧ want c ⟨2, 2, 1⟩ = some (2, .accept) := by
+  decide
+
 end KikiVerif.C04
 
 #print axioms KikiVerif.C04.C04_setAction_ok_iff
@@ -66,3 +111,4 @@ end KikiVerif.C04
 #print axioms KikiVerif.C04.C04_ok_conflict_free
 #print axioms KikiVerif.C04.C04_conflict_genuine
 #print axioms KikiVerif.C04.C04_emitted_iff_conflict_free
+#print axioms KikiVerif.C04.C04_emitted_iff_lalr1
